@@ -43,6 +43,7 @@ def run_case(case, ctx):
 	try:
 		labels_in = case['labels']
 		args = ['tree']
+		cwd = None
 		if mode == 'sig':
 			eff = S
 			if case['int_ids']:
@@ -80,11 +81,12 @@ def run_case(case, ctx):
 			else:
 				lf = os.path.join(d, 'list.txt')
 				H.write_listfile(lf, rel, case.get('list_style', 0))
-				args += ['-l', lf, '--ldir', os.path.join(d, 'base')]
+				cwd, give = H.list_cwd_setup(case.get('list_cwd'), d, os.path.join(d, 'base'), rel, genomes)
+				args += ['-l', lf] + (['--ldir', os.path.join(d, 'base')] if give else [])
 		if case['cores'] is not None:
 			args += ['-c', str(case['cores'])]
 		args += ['--no-progress']
-		res = run_cli(args)
+		res = run_cli(args, cwd=cwd)
 		desc = f'`gambit {" ".join(os.path.relpath(a, d) if a.startswith(d) else a for a in args)}`'
 		if res.exit_code != 0:
 			raise Violation('command_failed', f'{desc}: exit {res.exit_code}: {res.stderr[-300:]} {res.exception!r} (labels {labels})', case)
@@ -111,6 +113,8 @@ def run_case(case, ctx):
 			if abs(l.depth - Hh) > TOL * max(1, l.nbranches):
 				raise Violation('not_ultrametric', f'{desc}: leaf {l.name!r} at root distance {l.depth}, mean {Hh}', case)
 		classes = [f'mode={mode}', f'n={min(n, 5)}', 'explicit_kp' if E else 'implicit_kp']
+		if mode == 'list' and case.get('list_cwd'):
+			classes.append('list_cwd=' + case['list_cwd'])
 		unique_labels = len(set(labels)) == len(labels)
 		nheights = 0
 		if unique_labels:
@@ -204,6 +208,7 @@ def gen_case(draw, tier):
 		'allow_dup_labels': draw(st.integers(0, 9)) == 9,
 		'cores': draw(st.sampled_from([None, 1, 4, None])),
 		'list_style': draw(st.integers(0, 4)),
+		'list_cwd': draw(st.sampled_from([None, 'decoy', None, 'implicit'])),
 	}
 
 
